@@ -20,7 +20,7 @@ RULE = ("case = (accepted tree, fault kind, fault position); trees: GenTree.tla 
         "(seeded sample); non-trivial = >= 3 objects; distinct by JSON")
 
 VALUE = {"widget": 'toolTip: "w%d"', "menu": 'title: "m%d"', "tab": 'toolTip: "t%d"', "layout": "spacing: %d", "spacer": "orientation: Qt.Vertical", "action": 'text: "a%d"'}
-FAULTS = ["unknown_prop", "illtyped", "duplicate", "unknown_attached", "dup_attached", "unknown_type", "non_object_type", "unconsumed_attached", "nonobject_pointer"] + ["illtyped_pseudo:%d" % i for i in range(6)]
+FAULTS = ["unknown_prop", "illtyped", "duplicate", "unknown_attached", "dup_attached", "unknown_type", "non_object_type", "unconsumed_attached", "nonobject_pointer", "dup_grouped"] + ["illtyped_pseudo:%d" % i for i in range(6)]
 # fault kinds that apply to few object classes only: always planted where they apply (the others are sampled)
 SPECIFIC = ("illtyped_pseudo", "nonobject_pointer", "unconsumed_attached")
 
@@ -85,6 +85,16 @@ def plant(t, extra, node, parent, fault):
         first = fextra[id(fn)][0]
         fextra[id(fn)].append(first)
         return ft, fextra, t, rextra, first.split(":")[0]
+    if fault == "dup_grouped":
+        # the same member of a grouped value bound twice, the later occurrence inside a group block (after a dotted binding, after another block, verbatim)
+        if k not in ("widget", "tab", "menu") or fn["sep"]:
+            return None
+        base, again = [("font.pointSize: 12", "font { pointSize: 20 }"), ("font { bold: true }", "font { bold: false; italic: true }"),
+                       ("sizePolicy { horizontalPolicy: QSizePolicy.Fixed }", "sizePolicy { horizontalPolicy: QSizePolicy.Fixed }"),
+                       ("font.family: \"Mono\"", "font { italic: true; family: \"Serif\" }")][pos % 4]
+        rextra[id(node)] = rextra[id(node)] + [base]
+        fextra[id(fn)] = fextra[id(fn)] + [base, again]
+        return ft, fextra, t, rextra, again.split(" ")[0]
     if fault == "unknown_attached":
         fextra[id(fn)].append("NoSuchAttaching7.row: 1")
         return ft, fextra, t, rextra, "NoSuchAttaching7"
